@@ -149,4 +149,63 @@ Proof.
   - intros i Hi. eapply (ns_fresh_proc c self p _ Hns Hp). cbn. lia.
   - intros k Hk. rewrite Hnew in Hk. apply rows2_cids in Hk as (m & -> & Hm). by eapply (ns_fresh_chan c self p m Hns Hp).
 Qed.
+
+(* S3 / S4: a process ends up with the two providers of a contraction request: the rule copy *)
+Lemma refine_copy c self p k st m n1 n2 c1 c2 P cl :
+  procs c !! self = Some p -> chans c !! k = Some st -> ch_buf st = Some m ->
+  chan n1 = Some c1 -> chan n2 = Some c2 -> is_fwd P = false ->
+  [SSplit c1 c2 k; obj k P] ≡ₚ proc_obj self p ++ msg_obj k m ->
+  (forall m', (pr_next p <= m')%nat -> (self ++ [m']) ∉ cfg_cids (α c)) ->
+  sax_step F true (α c) []
+    (α (apply_effect (put_msg c k st None) self p (Eff (Continue (Proc [n1; n2] P (pr_next p))) [] [] cl []))).
+Proof.
+  intros Hp Hk Hb H1 H2 Hnf HL Hfresh.
+  destruct (dup_objs self n1 n2 c1 c2 P (pr_next p) H1 H2 Hnf) as (e & He & _ & _ & _ & _ & _ & _ & Hobjs).
+  assert (α c ≡ₚ [SSplit c1 c2 k; obj k P] ++ procs_objs (delete self (procs c)) ++ chans_objs (delete k (chans c))) as Hc.
+  { rewrite (alpha_lookup c self p Hp), (chans_objs_lookup _ k st Hk), HL. unfold chan_obj. rewrite Hb.
+    rewrite <- !app_assoc. f_equiv. rewrite !app_assoc. f_equiv. apply Permutation_app_comm. }
+  eapply sax_oneS; [exact Hc| |].
+  - rewrite alpha_effect_simple. cbn [procs chans put_msg]. rewrite chans_objs_insert. cbn [chan_obj ch_buf app].
+    unfold proc_obj at 1. cbn [pr_provs pr_body0]. rewrite He, Hobjs. destruct P; try done.
+  - apply (s_copy _ c1 c2 k P (col1 self (pr_next p) (free_names P)) (col2 self (pr_next p) (free_names P))).
+    + unfold col1. by rewrite imap_length.
+    + unfold col2. by rewrite imap_length.
+    + apply col_ok.
+    + apply col_nodup.
+    + intros z Hz. apply col_cids in Hz as (m' & -> & Hm'). intros Hin. apply (Hfresh m' Hm').
+      unfold cfg_cids in *. rewrite Hc. exact Hin.
+Qed.
+
+(* S1: `<x,y> <- split b; k` *)
+Lemma refine_split c self n a x y from k next b :
+  procs c !! self = Some (Proc [n] (FSplit x y from k) next) -> chan n = Some a ->
+  is_self from = false -> chan from = Some b -> ns_ok c ->
+  (forall m', (next <= m')%nat -> (self ++ [m']) ∉ cfg_cids (α c)) ->
+  let c1 := mkName (ident x) false (pol from) (nty from) (Some (self ++ [next])) in
+  let c2 := mkName (ident y) false (pol from) (nty from) (Some (self ++ [S next])) in
+  sax_step F true (α c) []
+    (α (apply_effect c self (Proc [n] (FSplit x y from k) next)
+          (Eff (Continue (set_body (Proc [n] (FSplit x y from k) (S (S next))) (subst y c2 (subst x c1 k))))
+               [Spawn [c1; c2] (FFwd (mkName (ident from) true (pol from) (nty from) None) from false)]
+               (cids_of [c1; c2]) [] []))).
+Proof.
+  intros Hp Hn Hfs Hb Hns Hfresh c1 c2.
+  assert (α c ≡ₚ [SProc a (FSplit x y from k)] ++ procs_objs (delete self (procs c)) ++ chans_objs (chans c)) as Hc.
+  { rewrite (alpha_lookup c self _ Hp). unfold proc_obj, pobj. cbn. by rewrite Hn. }
+  eapply (sax_oneS F [SProc a (FSplit x y from k)]
+            [obj a (subst y c2 (subst x c1 k)); SSplit (self ++ [next]) (self ++ [S next]) b]); [exact Hc| |].
+  - unfold α, apply_effect. cbn.
+    rewrite procs_objs_insert. rewrite delete_insert_ne by apply self_ne_snoc.
+    rewrite procs_objs_insert_fresh.
+    2:{ apply lookup_delete_None. right. eapply (ns_fresh_proc c self _ _ Hns Hp). cbn. lia. }
+    rewrite chans_objs_new.
+    2:{ rewrite lookup_insert_ne; [eapply (ns_fresh_chan c self _ _ Hns Hp); cbn; lia|].
+        intros E. apply app_inv_head in E. injection E. lia. }
+    rewrite chans_objs_new by (eapply (ns_fresh_chan c self _ _ Hns Hp); cbn; lia).
+    unfold proc_obj, pobj. cbn. rewrite Hn, Hb. cbn. done.
+  - apply (s_split _ a x y from k b c1 c2 (self ++ [next]) (self ++ [S next])); try done.
+    + intros E. apply app_inv_head in E. injection E. lia.
+    + intros Hin. apply (Hfresh next ltac:(lia)). unfold cfg_cids in *. by rewrite Hc.
+    + intros Hin. apply (Hfresh (S next) ltac:(lia)). unfold cfg_cids in *. by rewrite Hc.
+Qed.
 End split_rules.
